@@ -2,8 +2,8 @@
  *
  * The real classes write/read sizeof(T) raw bytes per call to/from a file
  * (RestartWriter.hpp:74, RestartReader.hpp:73; bool goes through
- * uint_least8_t). The tape records, per write, the byte count and the raw
- * bits (all scalar types used are <= 8 bytes). A read pops one record and
+ * uint_least8_t). The tape records, per write, the byte count, whether the
+ * value is a double, and the value (all scalar types used are <= 8 bytes). A read pops one record and
  * carries two obligations: there is a record left (no read past what was
  * written) and its byte count equals sizeof(T) (the dump is not mis-framed).
  * TRUSTED: std::ofstream/ifstream write/read transport bytes faithfully.
@@ -20,33 +20,55 @@ typedef struct cm_tape_handle { int dummy; } RestartWriter;
 typedef struct cm_tape_handle RestartReader;
 
 uint8_t cm_tape_size[CM_TAPE_CAP];
-uint64_t cm_tape_bits[CM_TAPE_CAP];
+uint8_t cm_tape_isf64[CM_TAPE_CAP]; /* record holds a double */
+uint64_t cm_tape_bits[CM_TAPE_CAP]; /* integer records: raw bits */
+double cm_tape_f64[CM_TAPE_CAP];    /* double records: the value itself (bit-exact, no reinterpretation needed) */
 size_t cm_tape_n;  /* records written */
 size_t cm_tape_rd; /* records read */
 
-static inline uint64_t cm_bits_f64(double d) { return *(uint64_t *)&d; }
-static inline uint64_t cm_bits_int(uint64_t v) { return v; }
-static inline double cm_f64_bits(uint64_t b) { return *(double *)&b; }
-
-static inline void cm_tape_write(size_t size, uint64_t bits) {
+static inline void cm_tape_write_int(size_t size, uint64_t bits) {
 #ifndef CM_NATIVE
   __CPROVER_assert(cm_tape_n < CM_TAPE_CAP, "ghost tape capacity (increase CM_TAPE_CAP)");
 #endif
   cm_tape_size[cm_tape_n] = (uint8_t)size;
+  cm_tape_isf64[cm_tape_n] = 0;
   cm_tape_bits[cm_tape_n] = size >= 8 ? bits : (bits & ((((uint64_t)1) << (8 * size)) - 1));
   cm_tape_n++;
 }
+static inline void cm_tape_write_f64(size_t size, double v) {
+#ifndef CM_NATIVE
+  __CPROVER_assert(cm_tape_n < CM_TAPE_CAP, "ghost tape capacity (increase CM_TAPE_CAP)");
+#endif
+  cm_tape_size[cm_tape_n] = (uint8_t)size;
+  cm_tape_isf64[cm_tape_n] = 1;
+  cm_tape_f64[cm_tape_n] = v;
+  cm_tape_n++;
+}
 
-static inline uint64_t cm_tape_read(size_t size) {
+static inline uint64_t cm_tape_read_int(size_t size) {
 #ifndef CM_NATIVE
   __CPROVER_assert(cm_tape_rd < cm_tape_n, "restart read past the end of what was written");
   __CPROVER_assert(cm_tape_size[cm_tape_rd] == size, "restart read with a different size than written (mis-framed dump)");
+  __CPROVER_assert(!cm_tape_isf64[cm_tape_rd], "restart reads an integer where a double was written (bytes reinterpreted)");
 #endif
   return cm_tape_bits[cm_tape_rd++];
 }
+static inline double cm_tape_read_f64(size_t size) {
+#ifndef CM_NATIVE
+  __CPROVER_assert(cm_tape_rd < cm_tape_n, "restart read past the end of what was written");
+  __CPROVER_assert(cm_tape_size[cm_tape_rd] == size, "restart read with a different size than written (mis-framed dump)");
+  __CPROVER_assert(cm_tape_isf64[cm_tape_rd], "restart reads a double where an integer was written (bytes reinterpreted)");
+#endif
+  return cm_tape_f64[cm_tape_rd++];
+}
 
-#define CM_TAPE_WRITE(e) cm_tape_write(sizeof(e), _Generic((e), double: cm_bits_f64, default: cm_bits_int)(e))
+static inline uint64_t cm_as_u64(uint64_t v) { return v; }
+static inline uint64_t cm_f64_as_u64(double v) { return (uint64_t)0; }
+static inline double cm_as_f64(double v) { return v; }
+static inline double cm_u64_as_f64(uint64_t v) { return 0.; }
+#define CM_TAPE_WRITE(e) _Generic((e), double: cm_tape_write_f64(sizeof(e), _Generic((e), double: cm_as_f64, default: cm_u64_as_f64)(e)), \
+                                  default: cm_tape_write_int(sizeof(e), _Generic((e), double: cm_f64_as_u64, default: cm_as_u64)(e)))
 /* sign extension for signed types narrower than 64 bits happens in the cast to T */
-#define CM_TAPE_READ(T) ((T)_Generic((T)0, double: cm_f64_bits(cm_tape_read(sizeof(T))), default: cm_tape_read(sizeof(T))))
+#define CM_TAPE_READ(T) ((T)_Generic((T)0, double: cm_tape_read_f64(sizeof(T)), default: cm_tape_read_int(sizeof(T))))
 
 #endif
